@@ -392,6 +392,21 @@ def float_monitors(chk, tier):
                     g = c2g(ta, sbi.CC.get_coft(site - 1, site - 1))
                     ana = np.abs(rho0[0, site]) * np.exp(-np.real(g))
                     worst = max(worst, float(np.max(np.abs(np.abs(out[:, 0, site]) - ana))))
+                # hypotheses and first conclusion of c07_uncoupled_populations_constant / ..._propagate_elementwise on the real objects:
+                # Hamiltonian and the operators of the operator form are diagonal in the site basis; populations do not move
+                TDo, _ho = agg.get_RelaxationTensor(ta, relaxation_theory="stR", time_dependent=True, as_operators=True)
+
+                def offd(A):
+                    A = np.asarray(A)
+                    return float(np.max(np.abs(A - A * np.eye(A.shape[-1])))) if A.size else 0.0
+                worst_offd = max(offd(ham.data), offd(TDo.Km), offd(TDo.Lm), offd(TDo.Ld))
+                pop_dev = float(np.max(np.abs(np.array([np.diag(x) for x in out]) - np.diag(rho0)[None, :])))
+            chk.count("uncoupled_hypothesis:%s" % ("diagonal" if worst_offd == 0.0 else "not_diagonal"))
+            if worst_offd != 0.0:
+                chk.violation("float:dephasing_not_diagonal", "uncoupled sites: Hamiltonian / K_m / Lambda_m of the site-basis operator form are not "
+                              "diagonal (largest off-diagonal element %.3g): the uncoupled-site theorems do not apply" % worst_offd, "monitor", c)
+            if pop_dev > 1e-10:
+                chk.violation("float:dephasing_populations", "uncoupled sites: populations move by %.3g under pure dephasing" % pop_dev, "monitor", c)
             if worst > 5e-3:
                 chk.violation("float:dephasing_limit", "uncoupled sites: |rho_0k(t)| deviates from exp(-Re g(t)) by %g (> 5e-3, time step 1 fs)" % worst, "monitor", c)
             chk.extra.setdefault("dephasing_limit_max_deviation", []).append(worst)
